@@ -503,21 +503,28 @@ theorem fill_inv {bt : List Builtin} {w : U → Nat → Option Name → Option (
         ⟨_, modify_get_eq hob, by rw [(markFields_meta gn _).2.1]; exact hK⟩
       exact ⟨hknown.mono g3, (Reg.mono (.inl ⟨n, l1⟩) (g2.trans g3))⟩
 
+/-- recording the ghost fields of the methods phase changes nothing the invariant looks at -/
+theorem ghost_goodUpdate (u : U) (o : Nat) (g : Nat) (b : Bool) :
+    GoodUpdate u o (fun ob => { ob with nsrc := some g, nskip := b }) :=
+  fun _ _ => ⟨rfl, fun _ => rfl, fun _ hr => .inl hr⟩
+
 theorem addMethods_inv {bt : List Builtin} {w : U → Nat → Option Name → Option (U × Nat)} (hw : WalkOK bt w) (v2 : Bool)
-    (u0 u : U) (o : Nat) (ms : List GMethod) (u' : U) (o' : Nat) (p : Post bt u0 u o)
-    (hf : addMethods v2 w u o ms = some (u', o')) : Post bt u0 u' o' := by
+    (u0 u : U) (o : Nat) (ms : List GMethod) {g : Nat} (u' : U) (o' : Nat) (p : Post bt u0 u o)
+    (hf : addMethods v2 w u o ms g = some (u', o')) : Post bt u0 u' o' := by
   unfold addMethods at hf
   split at hf
-  · cases hr : runKids w o u (methodKids v2 ms) with
+  · obtain ⟨h2, g2⟩ := modify_inv (o := o) (ghost_goodUpdate u o g false) p.inv
+    cases hr : runKids w o (u.modify o (fun ob => { ob with nsrc := some g, nskip := false })) (methodKids v2 ms) with
     | none => simp [hr] at hf
     | some u3 =>
       simp only [hr, Option.some.injEq, Prod.mk.injEq] at hf
       obtain ⟨rfl, rfl⟩ := hf
-      obtain ⟨h3, g3⟩ := runKids_inv hw o _ _ _ p.inv hr
-      exact ⟨h3, p.grows.trans g3, p.good.mono g3⟩
-  · simp only [Option.some.injEq, Prod.mk.injEq] at hf
+      obtain ⟨h3, g3⟩ := runKids_inv hw o _ _ _ h2 hr
+      exact ⟨h3, p.grows.trans (g2.trans g3), p.good.mono (g2.trans g3)⟩
+  · obtain ⟨h2, g2⟩ := modify_inv (o := o) (ghost_goodUpdate u o g true) p.inv
+    simp only [Option.some.injEq, Prod.mk.injEq] at hf
     obtain ⟨rfl, rfl⟩ := hf
-    exact p
+    exact ⟨h2, p.grows.trans g2, p.good.mono g2⟩
 
 /-! ## `walkType` -/
 
@@ -683,11 +690,11 @@ theorem fill_idx {bt : List Builtin} {w : U → Nat → Option Name → Option (
       obtain ⟨_, g3⟩ := runKids_inv hw _ kids _ _ h2 hr
       exact g3.idx _ _ (g2.idx _ _ l1)
 
-theorem addMethods_snd {w : U → Nat → Option Name → Option (U × Nat)} (v2 : Bool) (u : U) (o : Nat) (ms : List GMethod)
-    (u' : U) (o' : Nat) (hf : addMethods v2 w u o ms = some (u', o')) : o' = o := by
+theorem addMethods_snd {w : U → Nat → Option Name → Option (U × Nat)} (v2 : Bool) (u : U) (o : Nat) (ms : List GMethod) {g : Nat}
+    (u' : U) (o' : Nat) (hf : addMethods v2 w u o ms g = some (u', o')) : o' = o := by
   unfold addMethods at hf
   split at hf
-  · cases hr : runKids w o u (methodKids v2 ms) with
+  · cases hr : runKids w o (u.modify o (fun ob => { ob with nsrc := some g, nskip := false })) (methodKids v2 ms) with
     | none => simp [hr] at hf
     | some u3 => simp only [hr, Option.some.injEq, Prod.mk.injEq] at hf; exact hf.2.symm
   · simp only [Option.some.injEq, Prod.mk.injEq] at hf; exact hf.2.symm
